@@ -127,6 +127,7 @@ class Run(object):
         self.noise_rng = np.random.default_rng([int(inst.get("seed", 0)) & 0x7FFFFFFF, 99])
         self.scaling = None      # (shift, scale) in use, filled from the first Controller
         self.kernel_dyk = 0
+        self.initrepair = None   # convex-constrained initialisation: "coordinate" / "negative_step" / "random_needed" (first run of the solve)
 
     def emit(self, _evname, **kw):
         if self.quiet == 0:
@@ -386,6 +387,21 @@ def install(run):
                 if r != "exc":
                     run.emit("SoftEnd", ok=r is None, flag=-99 if r is None else int(r.flag), msgc="" if r is None else msg_class(r.msg),
                              lsr=int(self.last_successful_run), rho=_fl(self.rho), delta=_fl(self.delta), rhoendc=_fl(self.rhoend))
+
+        def initialise_coordinate_directions(self, number_of_samples, num_directions, params):
+            if self.model.projections and run.quiet == 0 and run.initrepair is None:
+                # which repair phase of the convex-constrained initialisation these inputs need (independent re-computation, harness/convexinit.py)
+                from . import convexinit
+                run.quiet += 1
+                try:
+                    with np.errstate(all="ignore"):
+                        run.initrepair = convexinit.classify(list(self.model.projections), np.array(self.model.xbase, dtype=float), min(1.0, float(self.delta)),
+                                                             int(params("dykstra.max_iters")), float(params("dykstra.d_tol")), float(params("matrix_rank.r_tol")))
+                except Exception:  # noqa  (classification is advisory: it only narrows a known finding)
+                    run.initrepair = "unknown"
+                finally:
+                    run.quiet -= 1
+            return saved["S_Controller"].initialise_coordinate_directions(self, number_of_samples, num_directions, params)
 
         def reduce_rho(self, *a, **k):
             pre = (_fl(self.rho), _fl(self.delta))
@@ -735,6 +751,7 @@ def emit_return(run, s, kw, inputs_ok, extra_return):
                 tab[c] = [_fl(v) for v in df[c].tolist()] if c in df else []
             for c in ("nf", "nx", "nruns", "npt", "iter_this_run", "iters_total"):
                 tab[c] = [int(v) for v in df[c].tolist()] if c in df else []
+            tab["slow_iter"] = [(-1 if (v is None or v != v) else int(v)) for v in df["slow_iter"].tolist()] if "slow_iter" in df else []
             run.emit("Diag", **tab)
     if extra_return:
         d.update(extra_return(run, s, kw))
